@@ -38,7 +38,7 @@ ASSUMPTIONS = ['gfortran 12 -O0 with run-time checks is the reference semantics'
                'generated programs are well-defined by construction (original must run clean, else discarded)',
                'real outputs compared to rtol 1e-9 / atol 1e-9',
                'a time-out of the transformed program is inconclusive, never a violation']
-BUDGET_S = {'quick': 400, 'thorough': 3000}
+BUDGET_S = {'quick': 1200, 'thorough': 3000}     # quick: ~130 s idle on 16 workers; 8 workers on a loaded machine need ~1100 s
 CASE_TIMEOUT_S = 240
 
 MODES = ['outline_fn', 'outline_tf', 'extract_fn', 'extract_tf', 'both_tf', 'outline_file']
